@@ -10,10 +10,11 @@ HERE = os.path.dirname(os.path.abspath(__file__))
 VERIF = os.path.dirname(HERE)
 
 HARNESSES = {
-    'codepoint_len_all_bytes': dict(props=['C05', 'C06', 'C17', 'C13'], bound='none: all 256 bytes, loop-free (complete)', bounded=False),
-    'is_special_all_chars': dict(props=['C17'], bound='none: every char value, loop-free (complete)', bounded=False),
-    'digit_predicates_all_bytes': dict(props=['C06', 'C12'], bound='none: all 256 bytes, loop-free (complete)', bounded=False),
-    'utf8_steps_len4': dict(props=['C05', 'C08', 'C13'], bound='BOUNDED: every valid UTF-8 string of <= 4 bytes and every boundary offset, unwind 6', bounded=True),
+    'codepoint_len_all_bytes': dict(props=['C05', 'C06', 'C17', 'C13'], bound='none: function contract of codepoint_len proved for all 256 bytes, loop-free (complete)', bounded=False),
+    'is_special_all_chars': dict(props=['C17'], bound='none: function contract of is_special proved for every char value, loop-free (complete)', bounded=False),
+    'is_digit_all_bytes': dict(props=['C06', 'C12'], bound='none: function contract of is_digit proved for all 256 bytes (complete)', bounded=False),
+    'digit_predicates_all_bytes': dict(props=['C06', 'C12'], bound='none: function contract of is_hex_digit proved for all 256 bytes with is_digit replaced by its verified contract (stub_verified), complete', bounded=False),
+    'utf8_steps_len4': dict(props=['C05', 'C08', 'C13'], bound='BOUNDED: next_utf8 / prev_codepoint_ix on every valid UTF-8 string of <= 4 bytes and every boundary offset, unwind 6, codepoint_len replaced by its verified contract', bounded=True),
 }
 
 
@@ -29,7 +30,7 @@ def run_for(prop, tier):
     for h in mine:
         t0 = time.time()
         try:
-            q = subprocess.run(['cargo', 'kani', '--harness', h], cwd=os.path.join(VERIF, 'kani'), capture_output=True, text=True, env=env, timeout=1200)
+            q = subprocess.run(['cargo', 'kani', '-Z', 'function-contracts', '-Z', 'stubbing', '--harness', h], cwd=os.path.join(VERIF, 'kani'), capture_output=True, text=True, env=env, timeout=1200)
             out = q.stdout + q.stderr
         except subprocess.TimeoutExpired:
             res.append(dict(harness=h, bound=HARNESSES[h]['bound'], status='undecided', reason='timeout', obligation='kani.' + h, wall_s=round(time.time() - t0, 1)))
